@@ -1,3 +1,4 @@
 import H4.Props.C03
 import H4.Props.C05
 import H4.Props.C06
+import H4.Props.C16
